@@ -21,6 +21,7 @@ var libPure = map[string]bool{
 	"(image/color.Model).Convert": true, "(image.Image).ColorModel": true, "(image/draw.Image).ColorModel": true, "(golang.org/x/image/draw.Image).ColorModel": true,
 	"(image.Image).At": true, "(image/draw.Image).At": true, "(golang.org/x/image/draw.Image).At": true, "(image/color.Color).RGBA": true,
 	"(*github.com/srwiley/scanx.Scanner).SetColor": true,
+	"github.com/tdewolff/parse/v2.Dimension": true, "github.com/tdewolff/parse/v2.Number": true, "github.com/tdewolff/parse/v2.NewErrorLexer": true,
 	"fmt.Println": true, "fmt.Printf": true, "fmt.Print": true, "log.Println": true, "log.Printf": true,
 	"(*bytes.Buffer).Bytes": true, "(*bytes.Buffer).String": true, "(*bytes.Buffer).Len": true, "(*strings.Builder).String": true, "(*strings.Builder).Len": true,
 	"fmt.Errorf": true, "fmt.Sprintf": true, "fmt.Sprint": true, "fmt.Sprintln": true, "errors.New": true,
@@ -153,6 +154,23 @@ func (x *Exec) callLibrary(s *State, fn *types.Func, recv *Term, args []*Term, c
 			}
 			return out, true
 		}
+		return x.havocResults(s, call), true
+	case "github.com/tdewolff/parse/v2.Dimension":
+		libUsed[full] = "returns (n, m): the lengths of the number and of the unit at the start of b, 0 <= n, 0 <= m, n+m <= len(b) (assumed); writes nothing"
+		v := x.havocResults(s, call)
+		if len(v) == 2 {
+			s.assume(And(Cmp("<=", IntLit(0), v[0]), Cmp("<=", IntLit(0), v[1]), Cmp("<=", Arith("+", v[0], v[1]), Field(args[0], 2))))
+		}
+		return v, true
+	case "github.com/tdewolff/parse/v2.Number":
+		libUsed[full] = "returns the length of the number at the start of b, 0 <= n <= len(b) (assumed); writes nothing"
+		v := x.havocResults(s, call)
+		if len(v) == 1 {
+			s.assume(And(Cmp("<=", IntLit(0), v[0]), Cmp("<=", v[0], Field(args[0], 2))))
+		}
+		return v, true
+	case "github.com/tdewolff/parse/v2.NewErrorLexer":
+		libUsed[full] = "builds an error value from the reader's content: writes nothing of the verified module"
 		return x.havocResults(s, call), true
 	case "(*github.com/srwiley/scanx.Scanner).SetColor":
 		libUsed[full] = "stores the colour (or colour function) in the scanner: writes nothing of the verified module"
